@@ -24,10 +24,18 @@ def _fit_classes(aa):
     from autoarray.inversion.inversion.abstract import AbstractInversion
     from autoarray.inversion.inversion.dataset_interface import DatasetInterface
 
+    def _kw(use_mask_in_fit, dataset_model, pass_dm):
+        kw = {}
+        if use_mask_in_fit is not None:        # None = leave the keyword to its default (False)
+            kw["use_mask_in_fit"] = use_mask_in_fit
+        if pass_dm:
+            kw["dataset_model"] = dataset_model
+        return kw
+
     class FitI(aa.FitImaging):
-        def __init__(self, dataset, use_mask_in_fit, model_data, dataset_model=None, inversion=None):
-            super().__init__(dataset=dataset, use_mask_in_fit=use_mask_in_fit,
-                             dataset_model=dataset_model)
+        def __init__(self, dataset, use_mask_in_fit, model_data, dataset_model=None, inversion=None,
+                     pass_dm=True):
+            super().__init__(dataset=dataset, **_kw(use_mask_in_fit, dataset_model, pass_dm))
             self._model_data = model_data
             self._inversion = inversion
 
@@ -40,9 +48,9 @@ def _fit_classes(aa):
             return self._inversion
 
     class FitD(aa.FitDataset):
-        def __init__(self, dataset, use_mask_in_fit, model_data, dataset_model=None, inversion=None):
-            super().__init__(dataset=dataset, use_mask_in_fit=use_mask_in_fit,
-                             dataset_model=dataset_model)
+        def __init__(self, dataset, use_mask_in_fit, model_data, dataset_model=None, inversion=None,
+                     pass_dm=True):
+            super().__init__(dataset=dataset, **_kw(use_mask_in_fit, dataset_model, pass_dm))
             self._model_data = model_data
             self._inversion = inversion
 
@@ -222,18 +230,23 @@ class C08(PropertyCheck):
     ]
 
     # ------------------------------------------------------------------ generation
-    def _arrays(self, rng, m, exact_noise=False):
+    def _arrays(self, rng, m, exact_noise=False, ints=False):
         h, w = len(m), len(m[0])
         n = h * w
         data, noise, model = [], [], []
         for i in range(n):
             masked = m[i // w][i % w]
-            d = gen.dyadic(rng, -8, 8, 3)
-            mo = gen.dyadic(rng, -8, 8, 3)
-            if exact_noise:
-                no = Fraction(rng.choice([1, 2, 4, 8]), rng.choice([1, 2, 4]))
+            if ints:
+                d = Fraction(rng.randint(-9, 9))
+                mo = Fraction(rng.randint(-9, 9))
+                no = Fraction(rng.choice([1, 2, 4, 8]) if exact_noise else rng.randint(1, 7))
             else:
-                no = gen.pos_dyadic(rng, 1, 6, 2)
+                d = gen.dyadic(rng, -8, 8, 3)
+                mo = gen.dyadic(rng, -8, 8, 3)
+                if exact_noise:
+                    no = Fraction(rng.choice([1, 2, 4, 8]), rng.choice([1, 2, 4]))
+                else:
+                    no = gen.pos_dyadic(rng, 1, 6, 2)
             if masked:
                 # junk in masked cells: huge / negative / zero data, negative noise (never zero: the
                 # un-masked signal-to-noise division runs over every stored cell)
@@ -253,19 +266,39 @@ class C08(PropertyCheck):
             model.append(mo)
         return data, noise, model
 
-    def _background(self, rng, data, m):
-        """a background level that leaves (data - bg) non-zero at every unmasked pixel."""
+    def _background(self, rng, data, m, ints=False):
+        """a (signed) background level that leaves (data - bg) non-zero at every unmasked pixel."""
         w = len(m[0])
         for _ in range(20):
-            bg = gen.dyadic(rng, -4, 4, 4)
+            bg = Fraction(rng.randint(-4, 4)) if ints else gen.dyadic(rng, -4, 4, 4)
             if bg != 0 and all(d != bg for i, d in enumerate(data) if not m[i // w][i % w]):
                 return bg
         return Fraction(1, 32)
 
-    def _fix_zero_data(self, data, m, bg):
+    def _fix_zero_data(self, data, m, bg, ints=False):
         w = len(m[0])
-        return [d if (m[i // w][i % w] or d - bg != 0) else d + Fraction(1, 8)
+        return [d if (m[i // w][i % w] or d - bg != 0) else d + (Fraction(1) if ints else Fraction(1, 8))
                 for i, d in enumerate(data)]
+
+    def _feed(self, rng, ints, mode, bg, inv):
+        """how the numbers reach the public API (round-3 hardening): dtype and container of every
+        array argument, "set but falsy" / explicit-default option values, thin wrappers."""
+        feed = {
+            # dtype of data / noise / model arrays: integer dtypes only when every value is an integer
+            "dtype": rng.choice(["int64", "pyint", "float"]) if ints else "float",
+            # ndarray vs nested python lists handed to Array2D
+            "container": rng.choice(["ndarray", "list"]),   # (Array2D documents list / ndarray; tuples are rejected)
+            # zero sky level: no dataset model / keyword omitted / default object / explicit 0.0 / explicit 0
+            "dm": (rng.choice(["none", "omitted", "default_obj", "explicit_0.0", "explicit_0"])
+                   if bg == 0 else ("explicit_int" if (ints and rng.random() < 0.7) else "explicit")),
+            # use_mask_in_fit=False passed explicitly or left to its default
+            "use_mask_kw": "explicit" if mode == "native" else rng.choice(["explicit", "default"]),
+            # the library's own thin FitImaging subclass instead of the harness one
+            "wrapper": "mock" if rng.random() < 0.2 else "harness",
+            # regularization blocks as ndarray or nested lists; integer dtype where integral
+            "reg": rng.choice(["ndarray", "list", "int_ndarray"]),
+        }
+        return feed
 
     def _inversion(self, rng, style=None):
         style = style or rng.choice(["all_reg", "partial", "partial", "none_reg", "mock"])
@@ -296,20 +329,23 @@ class C08(PropertyCheck):
         s = [gen.dyadic(rng, -4, 4, 2) for _ in range(tot)]
         return {"kind": "abstract", "style": style, "objs": objs, "F": qmat(F), "s": qlist(s)}
 
-    def _case(self, rng, m, tag, mode, fit_cls, with_bg, inv, exact_noise=False):
-        data, noise, model = self._arrays(rng, m, exact_noise)
+    def _case(self, rng, m, tag, mode, fit_cls, with_bg, inv, exact_noise=False, ints=None):
+        if ints is None:
+            ints = rng.random() < 0.22
+        data, noise, model = self._arrays(rng, m, exact_noise, ints)
         bg = Fraction(0)
         if with_bg:
-            bg = self._background(rng, data, m)
+            bg = self._background(rng, data, m, ints)
         eff_bg = bg if fit_cls == "imaging" else Fraction(0)
-        data = self._fix_zero_data(data, m, eff_bg)
+        data = self._fix_zero_data(data, m, eff_bg, ints)
         if mode == "slim_applied":
             # the un-masked dataset is validated by Imaging only where check_noise_map is on; keep
             # the noise map positive everywhere so both constructions are legal
             noise = [abs(v) for v in noise]
-        return {"tag": tag, "kind": "fit", "mask": mask_json(m), "mode": mode, "fit_cls": fit_cls,
+        return {"tag": tag + ("_int" if ints else ""), "kind": "fit", "mask": mask_json(m), "mode": mode,
+                "fit_cls": fit_cls,
                 "data": qlist(data), "noise": qlist(noise), "model": qlist(model),
-                "background": q(bg), "inversion": inv}
+                "background": q(bg), "inversion": inv, "feed": self._feed(rng, ints, mode, bg, inv)}
 
     def generate(self, tier, rng):
         cells = 6 if tier == "quick" else 9
@@ -320,6 +356,11 @@ class C08(PropertyCheck):
                     yield self._case(rng, m, f"exh_{mode}", mode,
                                      "imaging" if rng.random() < 0.7 else "dataset",
                                      rng.random() < 0.5, None, exact_noise=rng.random() < 0.5)
+        # 1b. degenerate: no unmasked pixel at all (sums over nothing), every frame shape of the box
+        for (h, w) in gen.shapes_upto(4):
+            for mode in ("native", "slim"):
+                yield self._case(rng, gen.full(h, w), f"zero_unmasked_{mode}", mode, "imaging",
+                                 rng.random() < 0.5, None)
         # 2. structured random masks × mode × background × inversion styles
         n = 300 if tier == "quick" else 2500
         styles = [None, "all_reg", "partial", "none_reg", "mock"]
@@ -361,7 +402,7 @@ class C08(PropertyCheck):
             objs.append({"params": p, "cls": "mapper" if reg else "linear",
                          "reg": qmat(_spd_int(rng, p, ridge=2)) if reg else None,
                          "mapping_matrix": qmat(mm)})
-        case = self._case(rng, m, f"real_{style}", "slim", "imaging", rng.random() < 0.5, None)
+        case = self._case(rng, m, f"real_{style}", "slim", "imaging", rng.random() < 0.5, None, ints=False)
         # real pipeline: positive data so the positive-only solver has something to fit
         bg = Fraction(case["background"])
         case["data"] = qlist(self._fix_zero_data([abs(Fraction(v)) + 1 for v in case["data"]], m, bg))
@@ -376,29 +417,61 @@ class C08(PropertyCheck):
         h, w = mj["h"], mj["w"]
         mb = np.array([c == "1" for c in mj["bits"]], dtype=bool).reshape(h, w)
         mask = aa.Mask2D(mask=mb, pixel_scales=(1.0, 1.0))
-        nat = {k: np.array([float(Fraction(v)) for v in case[k]]).reshape(h, w)
-               for k in ("data", "noise", "model")}
+        feed = case.get("feed") or {}
+        dtype, cont = feed.get("dtype", "float"), feed.get("container", "ndarray")
+
+        def num(v):
+            f = Fraction(v)
+            return int(f) if dtype in ("int64", "pyint") else float(f)
+
+        def pack(vals, shape=None):
+            """the values as the chosen container / dtype (native: h×w nested; slim: flat)."""
+            vals = [num(v) for v in vals]
+            if shape is not None:
+                vals = [vals[r * shape[1]:(r + 1) * shape[1]] for r in range(shape[0])]
+            if cont == "list" or (dtype == "pyint" and cont == "ndarray"):
+                return vals
+            if cont == "tuple":
+                return tuple(tuple(r) for r in vals) if shape is not None else tuple(vals)
+            a = np.array(vals, dtype=np.int64 if dtype == "int64" else float)
+            return a.reshape(shape) if shape is not None else a
+
+        un = [i for i, c in enumerate(mj["bits"]) if c == "0"]
         mode = case["mode"]
         if mode == "native":
-            arr = {k: aa.Array2D(values=v, mask=mask, store_native=True, skip_mask=True)
-                   for k, v in nat.items()}
+            arr = {k: aa.Array2D(values=pack(case[k], (h, w)), mask=mask, store_native=True,
+                                 skip_mask=True) for k in ("data", "noise", "model")}
             dataset = aa.Imaging(data=arr["data"], noise_map=arr["noise"])
             use_mask = True
         elif mode == "slim":
-            arr = {k: aa.Array2D(values=v[~mb], mask=mask) for k, v in nat.items()}
+            arr = {k: aa.Array2D(values=pack([case[k][i] for i in un]), mask=mask)
+                   for k in ("data", "noise", "model")}
             dataset = aa.Imaging(data=arr["data"], noise_map=arr["noise"])
-            use_mask = False
+            use_mask = False if feed.get("use_mask_kw", "explicit") == "explicit" else None
         else:  # slim_applied: the usual route, an un-masked dataset with the mask applied
             full = aa.Imaging(
-                data=aa.Array2D.no_mask(values=nat["data"], pixel_scales=(1.0, 1.0)),
-                noise_map=aa.Array2D.no_mask(values=nat["noise"], pixel_scales=(1.0, 1.0)),
+                data=aa.Array2D.no_mask(values=pack(case["data"], (h, w)), pixel_scales=(1.0, 1.0)),
+                noise_map=aa.Array2D.no_mask(values=pack(case["noise"], (h, w)), pixel_scales=(1.0, 1.0)),
                 check_noise_map=False)
             dataset = full.apply_mask(mask=mask)
-            arr = {"model": aa.Array2D(values=nat["model"], mask=mask)}
-            use_mask = False
-        bg = float(Fraction(case["background"]))
-        dm = aa.DatasetModel(background_sky_level=bg) if bg != 0.0 else None
-        return aa, cl, mask, mb, dataset, arr["model"], use_mask, dm
+            arr = {"model": aa.Array2D(values=pack(case["model"], (h, w)), mask=mask)}
+            use_mask = False if feed.get("use_mask_kw", "explicit") == "explicit" else None
+        bgq = Fraction(case["background"])
+        dmk = feed.get("dm", "explicit" if bgq != 0 else "none")
+        pass_dm = dmk != "omitted"
+        if dmk in ("none", "omitted"):
+            dm = None
+        elif dmk == "default_obj":
+            dm = aa.DatasetModel()
+        elif dmk == "explicit_0.0":
+            dm = aa.DatasetModel(background_sky_level=0.0)
+        elif dmk == "explicit_0":
+            dm = aa.DatasetModel(background_sky_level=0)
+        elif dmk == "explicit_int" and bgq.denominator == 1:
+            dm = aa.DatasetModel(background_sky_level=int(bgq))
+        else:
+            dm = aa.DatasetModel(background_sky_level=float(bgq))
+        return aa, cl, mask, mb, dataset, arr["model"], use_mask, (dm, pass_dm)
 
     def _make_inversion(self, aa, cl, case, dataset, mask):
         inv = case.get("inversion")
@@ -414,8 +487,13 @@ class C08(PropertyCheck):
             for o in inv["objs"]:
                 reg = None
                 if o["reg"] is not None:
-                    reg = aa.m.MockRegularization(
-                        regularization_matrix=np.array([[float(Fraction(v)) for v in r] for r in o["reg"]]))
+                    rk = (case.get("feed") or {}).get("reg", "ndarray")
+                    rm = [[float(Fraction(v)) for v in r] for r in o["reg"]]
+                    if rk == "int_ndarray" and all(Fraction(v).denominator == 1 for r in o["reg"] for v in r):
+                        rm = np.array([[int(Fraction(v)) for v in r] for r in o["reg"]], dtype=np.int64)
+                    elif rk != "list":
+                        rm = np.array(rm)
+                    reg = aa.m.MockRegularization(regularization_matrix=rm)
                 mm = None
                 if with_mm:
                     mm = np.array([[float(Fraction(v)) for v in r] for r in o["mapping_matrix"]])
@@ -457,13 +535,28 @@ class C08(PropertyCheck):
             extra["s"] = qlist(np.array(inversion.reconstruction))
             model = aa.Array2D(values=np.array(inversion.mapped_reconstructed_data), mask=mask)
             extra["model"] = qlist(np.array(model))
-        Fit = cl["FitI"] if case["fit_cls"] == "imaging" else cl["FitD"]
-        fit = Fit(dataset, use_mask, model, dataset_model=dm, inversion=inversion)
+        dm, pass_dm = dm
+        feed = case.get("feed") or {}
+        if feed.get("wrapper") == "mock" and case["fit_cls"] == "imaging":
+            # the library's own thin subclass (aa.m.MockFitImaging) instead of the harness one
+            kw = {"dataset": dataset, "model_data": model, "inversion": inversion}
+            if use_mask is not None:
+                kw["use_mask_in_fit"] = use_mask
+            if pass_dm:
+                kw["dataset_model"] = dm
+            fit = aa.m.MockFitImaging(**kw)
+        else:
+            Fit = cl["FitI"] if case["fit_cls"] == "imaging" else cl["FitD"]
+            fit = Fit(dataset, use_mask, model, dataset_model=dm, inversion=inversion, pass_dm=pass_dm)
         obs = {}
         for k in MAP_KEYS:
             obs[k] = qlist(np.asarray(getattr(fit, k), dtype=float).ravel())
+        no_pixels = "0" not in case["mask"]["bits"]
         for k in ("chi_squared", "reduced_chi_squared", "noise_normalization", "log_likelihood",
                   "figure_of_merit", "log_evidence", "log_likelihood_with_regularization"):
+            if k == "reduced_chi_squared" and no_pixels:
+                obs[k] = None      # chi_squared / 0 pixels: undefined, not part of the property
+                continue
             v = getattr(fit, k)
             obs[k] = None if v is None else q(float(v))
         if use_mask:
@@ -524,6 +617,8 @@ class C08(PropertyCheck):
         o = r["ok"]
         if case["mode"] == "native":
             o["util_chi_squared_with_mask_fast"] = o["chi_squared"]
+        if "0" not in case["mask"]["bits"]:
+            o["reduced_chi_squared"] = None
         return o
 
     def compare(self, case, impl_obs, model_obs, cmp):
@@ -568,7 +663,7 @@ class C08(PropertyCheck):
         norm = sum(math.log(2.0 * math.pi * float(n) ** 2) for n in noise)
         scal = {
             "chi_squared": float(chi),
-            "reduced_chi_squared": float(chi / len(un)),
+            **({"reduced_chi_squared": float(chi / len(un))} if un else {}),
             "noise_normalization": norm,
             "log_likelihood": -0.5 * (float(chi) + norm),
         }
